@@ -86,6 +86,14 @@ def machine (pfx : String) : _root_.Drv.Machine (State × List Ev) Mon where
         | some (s', evs) => ((s', evs), IO.renderStep s' (.okErr (st.1.isConnected dp)) evs)
         | none => (st, "bad-op")
       | _, _, _, _, _, _ => (st, "bad-op")
+    | "closeHold" :: c :: _ =>
+      match c.toNat? with
+      | some c => let (s', r, evs) := xstep st.1 (.closeHold c); ((s', evs), IO.renderStep s' r evs)
+      | none => (st, "bad-op")
+    | "release" :: c :: _ =>
+      match c.toNat? with
+      | some c => let (s', r, evs) := xstep st.1 (.release c); ((s', evs), IO.renderStep s' r evs)
+      | none => (st, "bad-op")
     | _ =>
       match IO.parseOp args with
       | none => (st, "bad-op")
@@ -100,6 +108,8 @@ def machine (pfx : String) : _root_.Drv.Machine (State × List Ev) Mon where
       match k.toNat?, p.toNat?, IO.parseB d with
       | some k, some p, some d => onMain pfx { m with op := some (.resolve k p d) } (.resolve k p d) outs
       | _, _, _ => (m, "FAIL:" ++ pfx ++ "unparsable_op")
+    | "closeHold" :: _ => onMain pfx { m with op := none } (.newAddr []) outs
+    | "release" :: _ => onMain pfx { m with op := none } (.newAddr []) outs
     | _ =>
       match IO.parseOp args with
       | none => (m, "FAIL:" ++ pfx ++ "unparsable_op")
